@@ -904,6 +904,10 @@ func (env *Zlisp) Apply(fun *SexpFunction, args []Sexp) (Sexp, error) {
 		env.restoreControlState(callState)
 		return SexpNull, err
 	}
+	// the return from fun left pc at -1 (the marker that ends the Run
+	// above): put it back, or the next Run of a host that called Apply
+	// directly would execute nothing.
+	env.pc = callState.pc
 	return res, nil
 }
 
